@@ -1,11 +1,15 @@
 ----------------------------- MODULE Trace_Ribbon -----------------------------
 (***************************************************************************)
 (* Implementation -> specification trace validation for the ribbon         *)
-(* controller (C15, C16).  Samples are 12-bit ADC codes x (the real         *)
-(* controller is polled with x/4096, exact in f32).                         *)
+(* controller (C15, C16).  Samples are integer codes x on a power-of-two     *)
+(* grid: the real controller is polled with x/den, exact in f32 (den = 2^12: *)
+(* ADC codes; 2^22: fine finger positions; 2^24: every f32 in [0.5, 1), in   *)
+(* particular the press boundary itself).                                    *)
 (*                                                                          *)
 (* Events:                                                                  *)
-(*  {"op":"new","fs":Hz,"cap":N,"thr":code,"bq":Q24,"ecq":Q24}             *)
+(*  {"op":"new","fs":Hz,"fr":K,"den":d,"cap":N,"thr":code,"bq":Q24,"ecq":Q24} *)
+(*      (fr: the controller is told fs + fr Hz, 0 <= fr < 1, which the       *)
+(*      documented truncation to whole Hz makes equivalent to fs)            *)
 (*      RibbonController::<N>::new(fs, softpot, dropper, pullup) with       *)
 (*      N = sample_rate_to_capacity(fs); thr = smallest code that is NOT    *)
 (*      below the press boundary; bq = boundary, ecq = (softpot+dropper)/   *)
@@ -14,14 +18,16 @@
 (*  {"op":"jp","r":b} / {"op":"jr","r":b}    finger_just_pressed/released   *)
 (*  {"op":"pair","kind":"same"|"raise","ka":K,"kb":K,...}   two controllers *)
 (*      driven in lock-step with sample sequences that differ only in       *)
+(*  {"op":"mark"} ... {"op":"rep","n":k}   run-length compression of k      *)
+(*      identical repetitions (see Trace_Midi)                              *)
 (*      samples that must not matter ("same": an earlier press / the newest *)
 (*      discarded samples) or in one contributing sample raised ("raise")   *)
 (***************************************************************************)
 EXTENDS Ribbon, TraceLib, Tables
 
-VARIABLES l, dead, lastK, bq, ecq
+VARIABLES l, dead, lastK, bq, ecq, den, snap
 
-tvars == <<rVars, l, dead, lastK, bq, ecq>>
+tvars == <<rVars, l, dead, lastK, bq, ecq, den, snap>>
 
 e == Rec[l]
 
@@ -32,8 +38,9 @@ MulQ(x, y) ==
       y1 == y \div h  y0 == y % h
   IN x1 * y1 + (x1 * y0 + x0 * y1 + (x0 * y0) \div h) \div h
 
-\* mean of n codes with sum s, as a Q24 fraction of full scale (code / 4096)
-MeanQ(s, n) == (s \div n) * 4096 + ((s % n) * 4096) \div n
+\* mean of n codes with sum s, as a Q24 fraction of full scale (code / den)
+Scale == 16777216 \div den
+MeanQ(s, n) == (s \div n) * Scale + ((s % n) * Scale) \div n
 \* the pull-up correction of the code: m - (m - m^2) * ec
 CorrQ(m) == m - MulQ(m - MulQ(m, m), ecq)
 
@@ -50,7 +57,7 @@ PollTags ==
           ~Near(MulQ(e.q, bq), CorrQ(MeanQ(val'[1], val'[2])), val'[2] + 16)
           THEN {<<"C16", "value">>} ELSE {})
 
-TMeta == e.op = "meta" /\ UNCHANGED <<rVars, dead, lastK, bq, ecq>> /\ l' = l + 1
+TMeta == e.op = "meta" /\ UNCHANGED <<rVars, dead, lastK, bq, ecq, den, snap>> /\ l' = l + 1
 
 TNew ==
   /\ e.op = "new"
@@ -59,32 +66,38 @@ TNew ==
      IN /\ cfg' = c /\ run' = 0 /\ win' = <<>> /\ sum' = 0
         /\ pressing' = FALSE /\ jp' = FALSE /\ jr' = FALSE /\ val' = <<0, 1>>
         /\ Flag(l, IF e.cap # c.cap THEN {<<"C15", "capacity">>} ELSE {})
-  /\ lastK' = 0 /\ bq' = e.bq /\ ecq' = e.ecq
+  /\ lastK' = 0 /\ bq' = e.bq /\ ecq' = e.ecq /\ snap' = <<>>
+  /\ den' = IF Has(e, "den") THEN e.den ELSE 4096
   /\ l' = l + 1 /\ dead' = {}
 
 TPoll ==
   /\ e.op = "p"
   /\ Poll(e.x)
-  /\ lastK' = e.k /\ UNCHANGED <<bq, ecq>>
+  /\ lastK' = e.k /\ UNCHANGED <<bq, ecq, den, snap>>
   /\ Advance(PollTags)
 
-TJP == /\ e.op = "jp" /\ PollJP /\ UNCHANGED <<lastK, bq, ecq>>
+TJP == /\ e.op = "jp" /\ PollJP /\ UNCHANGED <<lastK, bq, ecq, den, snap>>
        /\ Advance(IF e.r # jp THEN {<<"C15", "just-pressed">>} ELSE {})
-TJR == /\ e.op = "jr" /\ PollJR /\ UNCHANGED <<lastK, bq, ecq>>
+TJR == /\ e.op = "jr" /\ PollJR /\ UNCHANGED <<lastK, bq, ecq, den, snap>>
        /\ Advance(IF e.r # jr THEN {<<"C15", "just-released">>} ELSE {})
 
 TPair ==
   /\ e.op = "pair"
-  /\ UNCHANGED <<rVars, lastK, bq, ecq>>
+  /\ UNCHANGED <<rVars, lastK, bq, ecq, den, snap>>
   /\ l' = l + 1 /\ dead' = dead
   /\ Flag(l, (IF ~e.pa \/ ~e.pb THEN {<<"C15", "press-state">>} ELSE {})
         \cup (IF e.kind = "same" /\ e.ka # e.kb THEN {<<"C16", "depends-on-excluded-sample">>} ELSE {})
         \cup (IF e.kind = "raise" /\ e.kb < e.ka THEN {<<"C16", "not-monotone">>} ELSE {}))
 
-TPanic == /\ e.op = "panic" /\ UNCHANGED <<rVars, lastK, bq, ecq>> /\ Advance({<<"C17", "panic">>, <<"C15", "panic">>, <<"C16", "panic">>})
+TPanic == /\ e.op = "panic" /\ UNCHANGED <<rVars, lastK, bq, ecq, den, snap>> /\ Advance({<<"C17", "panic">>, <<"C15", "panic">>, <<"C16", "panic">>})
 
-TNext == l <= NRec /\ (TMeta \/ TNew \/ TPoll \/ TJP \/ TJR \/ TPair \/ TPanic)
+TMark == e.op = "mark" /\ snap' = <<rVars, lastK>> /\ UNCHANGED <<rVars, dead, lastK, bq, ecq, den>> /\ l' = l + 1
+TRep  == /\ e.op = "rep" /\ UNCHANGED <<rVars, lastK, bq, ecq, den, snap>>
+         /\ Advance(IF snap = <<rVars, lastK>> THEN {}
+                    ELSE {<<"C15", "repetition-not-a-cycle">>, <<"C16", "repetition-not-a-cycle">>})
+
+TNext == l <= NRec /\ (TMark \/ TRep \/ TMeta \/ TNew \/ TPoll \/ TJP \/ TJR \/ TPair \/ TPanic)
 TInit == /\ RInit([ig |-> 0, dc |-> 0, cap |-> 2, thr |-> 4096]) /\ l = 1 /\ dead = {} /\ lastK = 0
-         /\ bq = 16777216 /\ ecq = 0 /\ FlagInit
+         /\ bq = 16777216 /\ ecq = 0 /\ den = 4096 /\ snap = <<>> /\ FlagInit
 TSpec == TInit /\ [][TNext]_tvars
 =============================================================================
